@@ -108,6 +108,111 @@ def make_e_reent(params, part, nparts):
 
 
 # ---------------------------------------------------------------------------
+# E tier: lookups made from inside the change notification of a mutator ("changed() is the last step of every mutator")
+# ---------------------------------------------------------------------------
+
+MW_OPS = ["register([IR], P1, '', 'a')", "register([IR], P0, '', 'b')", "unregister([IR], P1, '')", "unregister([IR], P0, '')",
+          "subscribe([IR], P1, 's')", "unsubscribe([IR], P1, 's')", "register([IR], P1, 'n', 'c')", 'rebuild()',
+          "register([IR, IR], P1, '', 'm')", "subscribe([IR], None, 'h')"]
+
+
+def run_mutator_window(flavour, ops, watch_sub):
+    """Every change notification of the registry runs lookups (all entry points) - on a registry based on it (AdapterRegistry: push) or on
+    the registry itself; this is the window any other thread's lookup can also fall into.  When the mutator returns, nothing computed inside the
+    window may survive: the registries must answer as registries built afterwards."""
+    from zope.interface import Interface
+    from zope.interface.adapter import AdapterRegistry, VerifyingAdapterRegistry
+    from zope.interface.interface import InterfaceClass
+    from vlib import universe as U
+    mod = U.fresh_module_name()
+    IR = InterfaceClass('IR', (Interface,), __module__=mod)
+    P0 = InterfaceClass('P0', (Interface,), __module__=mod)
+    P1 = InterfaceClass('P1', (P0,), __module__=mod)
+    base_cls = AdapterRegistry if flavour == 0 else VerifyingAdapterRegistry
+
+    def obs(r):
+        return [r.lookup((IR,), P0), r.lookup((IR,), P1), r.lookup1(IR, P0), r.lookup((IR,), P0, 'n'), sorted(r.lookupAll((IR,), P0)),
+                sorted(r.names((IR,), P1)), list(r.subscriptions((IR,), P0)), list(r.subscriptions((IR,), None)), r.lookup((IR, IR), P0)]
+
+    class Watching(base_cls):
+        active = False
+
+        def changed(self, originally_changed):
+            super().changed(originally_changed)
+            if Watching.active:
+                try:
+                    obs(self)
+                except AttributeError:
+                    pass          # __init__ / rebuild() notify before the lookup object exists
+
+    def apply(reg, op):
+        if op == 0:
+            reg.register([IR], P1, '', 'a')
+        elif op == 1:
+            reg.register([IR], P0, '', 'b')
+        elif op == 2:
+            reg.unregister([IR], P1, '')
+        elif op == 3:
+            reg.unregister([IR], P0, '')
+        elif op == 4:
+            reg.subscribe([IR], P1, 's')
+        elif op == 5:
+            reg.unsubscribe([IR], P1, 's')
+        elif op == 6:
+            reg.register([IR], P1, 'n', 'c')
+        elif op == 7:
+            reg.rebuild()
+        elif op == 8:
+            reg.register([IR, IR], P1, '', 'm')
+        else:
+            reg.subscribe([IR], None, 'h')
+    if watch_sub:
+        base = base_cls()
+        front = Watching((base,))
+    else:
+        base = front = Watching()
+    Watching.active = True
+    done = []
+    try:
+        for op in ops:
+            apply(base, op)
+            done.append(op)
+            Watching.active = False
+            got_f, got_b = obs(front), obs(base)
+            fb = base_cls()
+            ff = base_cls((fb,)) if watch_sub else fb
+            for o in done:
+                if o != 7:
+                    apply(fb, o)
+            exp_f, exp_b = obs(ff), obs(fb)
+            Watching.active = True
+            if got_f != exp_f or got_b != exp_b:
+                raise Violation('%s, lookups made from inside every change notification of %s; history [%s]: afterwards the registry answers %r, '
+                                'registries built afterwards answer %r (an answer computed while the mutator was still running survived)' % (
+                                    base_cls.__name__, 'a registry based on it' if watch_sub else 'the registry itself',
+                                    '; '.join(MW_OPS[o] for o in done), got_f if got_f != exp_f else got_b, exp_f if got_f != exp_f else exp_b),
+                                signature='C11:mutator-window')
+    finally:
+        Watching.active = False
+
+
+def make_e_mutator_window(params, part, nparts):
+    L = params.get('L', 3)
+    NO = len(MW_OPS)
+
+    def h(fl: int, ws: int, n: int, o1: int, o2: int, o3: int, o4: int):
+        c1 = pick(o1, NO)
+        assume(c1 % nparts == part)
+        flavour, watch_sub = pick(fl, 2), pick(ws, 2)
+        assume(not (flavour == 1 and watch_sub))        # verifying registries get no notifications from their bases
+        ln = pick(n, L) + 1
+        ops = (c1,) + tuple(pick(o, NO) for o in (o2, o3, o4)[:ln - 1])
+        reached((flavour, watch_sub, ops), dict(flavour=flavour, watch_sub=watch_sub, history=[MW_OPS[o] for o in ops]))
+        native(run_mutator_window, flavour, ops, watch_sub)
+    return h
+
+
+# ---------------------------------------------------------------------------
 # S tier: the pure-Python cache layer under symbolic re-entrancy
 # ---------------------------------------------------------------------------
 
@@ -368,6 +473,18 @@ HARNESSES = [
             oracle='answer in {before, after} from uninterrupted twin registries; repeated call == after; no write into the dictionaries '
                    'allocated after the caches were released; refcount growth < 5 over 20 repetitions; process survives',
             stubs=['sibling processes for both builds', 'hooked LookupClass / lazy sequence / descriptor / factory / key objects as callback carriers']),
+    Harness('e_mutator_window', make_e_mutator_window, kind='E', impls=('py', 'c'),
+            tiers=dict(quick=dict(budget_s=120, parts=10, params=dict(L=3)), thorough=dict(budget_s=900, parts=10, params=dict(L=4))),
+            encoded=['zope.interface.adapter:BaseAdapterRegistry.register', 'zope.interface.adapter:BaseAdapterRegistry.unregister',
+                     'zope.interface.adapter:BaseAdapterRegistry.subscribe', 'zope.interface.adapter:BaseAdapterRegistry.unsubscribe',
+                     'zope.interface.adapter:BaseAdapterRegistry.rebuild', 'zope.interface.adapter:BaseAdapterRegistry.changed',
+                     'zope.interface.adapter:AdapterLookupBase.add_extendor', 'zope.interface.adapter:AdapterLookupBase.remove_extendor'],
+            bounds='both registry flavours; every history of <=3 (thorough 4) mutators from 10 (first / further registrations for related provided '
+                   'interfaces, unregistrations incl. the last one, subscriptions, a handler, a multi-adapter, rebuild()); during every change '
+                   'notification 9 lookups run on the registry itself or (AdapterRegistry) on a registry based on it; compared after every mutator',
+            outside='notifications observed from other threads at finer grain than the changed() hook (the hook is the only point at which the '
+                    'mutators call out)',
+            oracle='registries built afterwards with the same registrations and no earlier lookups'),
     Harness('s_py_atomic', make_s_py_atomic, kind='S', impls=('py',),
             tiers=dict(quick=dict(budget_s=120, parts=4, ppt=40, params={}), thorough=dict(budget_s=900, parts=4, ppt=60, params={})),
             encoded=_ENC[2:8],
